@@ -188,6 +188,8 @@ def make_fn(sg, occs):
                okc and all(hits.get(j, 0) == mult for j in range(npm)), mk("atoms-congruent"))
         cell_same = all(bool(a == b) for a, b in zip(np.ravel(cc_cell), np.ravel(ds.std_lattice)))
         e.post("conventional lattice is the standardized lattice", cell_same, mk("conv-lattice"))
+        e.validate_with(lambda env: S.validate_against_real(sg, ds, env, S.tkey(np.asarray(an._best_transform["transformation"])), conv.get_scaled_positions(wrap=False),
+                                                             trip["conventional"][0], orig_order=orig_order))
         e.reach(f"H12:centring:{S.make_dataset.__name__ and __import__('spglib').get_spacegroup_type(RG.std_hall(sg)).international_short[0]}")
         e.sample({"space_group": sg, "occupation": occ, "orig_order": "reversed" if orig_order else "as standardized", "primitive_vectors": [[str(v) for v in r] for r in Pq]})
     return fn
@@ -203,7 +205,7 @@ def orbit_bound(sg, tier):
 def run_group(arg):
     sg, tier = arg
     occs = S.occupations(sg, orbit_bound(sg, tier), S.ELEMENTS)
-    return sg, explore(make_fn(sg, occs), f"H12:sg{sg}", workers=1, timeout_ms=20000, budget_s=3000, precheck=True), len(occs)
+    return sg, explore(make_fn(sg, occs), f"H12:sg{sg}", workers=1, timeout_ms=20000, budget_s=3000, precheck=True, validate_every=10), len(occs)
 
 
 def main(tier, seed, only=None):
